@@ -220,7 +220,12 @@ def a4(prog, ctx):
     sh = loops.index_shape(lp)
     obj = f.params[0]["name"]
     want = "%s.length" % obj if f.params[0].get("ct") == "struct econf_file" else "%s->length" % obj
-    if loops.covers_range(sh, 0, want):
+    # a countdown next to a moving pointer (`for (left = n; left > 0; left--, entry++)`): the counter is not the index
+    by_pointer = sh.ok and not any(x.k == "ArraySubscriptExpr" and render(x.children[1]) == sh.var for x in lp.walk()) and any(
+        x.k == "UnaryOperator" and x.j.get("op") == "++" and (x.children[0].strip().j.get("ct") or "").rstrip().endswith("*") for x in lp.walk())
+    if by_pointer and not loops.covers_range(sh, 0, want):
+        ctx.inconclusive("A4", "find_key scans [0,length) ascending", lp.where, "%s next to a moving pointer: not followed" % sh.describe())
+    elif loops.covers_range(sh, 0, want):
         ctx.ok("A4", "find_key scans [0,length) ascending", lp.where, sh.describe())
     elif sh.ok and "alloc_length" in (sh.bound or ""):
         ctx.fail("A4", "find_key scans [0,length) ascending", lp.where,
@@ -249,7 +254,7 @@ def a4(prog, ctx):
             why.append("group is not compared with strcmp() == 0")
         if not (okk and ck):
             why.append("key is not compared with strcmp() == 0")
-        if sh.ok and render(st.children[1]) != sh.var:
+        if sh.ok and render(st.children[1]) != sh.var and not by_pointer:
             why.append("*num is set to %s, not to the matching index" % render(st.children[1]))
         # success is what the function returns after publishing
         ok_ret = True
@@ -794,12 +799,20 @@ def a7(prog, ctx):
                 ctx.inconclusive("A7", "econf_getKeys scans every entry in order", lp_.where, "%s, with a further condition in the loop test" % sh2.describe())
             else:
                 ctx.inconclusive("A7", "econf_getKeys scans every entry in order", lp_.where, "loop is %s" % sh.describe())
+        elif sh.start_node is not None and (sh.start_node.j.get("ct") or "").rstrip().endswith("*"):
+            ctx.inconclusive("A7", "econf_getKeys scans every entry in order", lp_.where, "a pointer walk (%s): not followed" % sh.describe())
         else:
             ctx.fail("A7", "econf_getKeys scans every entry in order", lp_.where, "loop is %s" % sh.describe(), key="keys-loop:%d" % kl.index(lp_))
     ctx.floor("C11 loops of econf_getKeys", len(kl), 2)
-    cmp_ = [c for c in k.calls(("strcmp", "strncmp", "strcasecmp")) if any(".group" in render(a) for a in c.call_args())]
+    cmp_ = [c for c in k.calls(("strcmp", "strncmp", "strcasecmp")) if any(".group" in render(a) or "->group" in render(a) for a in c.call_args())]
     if len(cmp_) > 1 and len(set(render(c) for c in cmp_)) == 1:
         cmp_ = cmp_[:1]          # the same test in a counting pass and in a copying pass
+    if len(cmp_) == 1 and cmp_[0].j["callee"] == "strcmp" and "group" not in [render(a) for a in cmp_[0].call_args()] and any(
+            (a9.strip().k == "DeclRefExpr" and a9.strip().j.get("dk") == "local") for a9 in cmp_[0].call_args()):
+        # compared with a local that stands for the section asked for (`const char *group = grp ? grp : KEY_FILE_NULL_VALUE`): not followed
+        ctx.inconclusive("A7", "econf_getKeys filters by section equality", cmp_[0].where, "`%s`: the section asked for is held in a local" % render(cmp_[0]))
+        cmp_ = []
+        return
     if len(cmp_) == 1 and cmp_[0].j["callee"] == "strcmp" and "group" in [render(a) for a in cmp_[0].call_args()]:
         ctx.ok("A7", "econf_getKeys filters by section equality", cmp_[0].where, render(cmp_[0]))
     else:
@@ -858,6 +871,8 @@ def a7(prog, ctx):
             k.cfg.block_of(inside[0][0]) in k.cfg.reachable(k.cfg.block_of(st9))
     if cp and re.match(r"strdup\(kf->file_entry\[[\w$.]+\]\.key\)", render(cp[0].children[1])) and ("++" in render(cp[0].children[0]) or _stepped_after(cp[0])):
         ctx.ok("A7", "econf_getKeys returns the keys in entry order", cp[0].where, render(cp[0]))
+    elif not cp and any(r9 is not None and re.match(r"strdup\(.*(\.|->)key\)$", render(r9)) and l9.strip().k == "UnaryOperator" for l9, r9, s9, k9 in query.stores(k)):
+        ctx.inconclusive("A7", "econf_getKeys returns the keys in entry order", k.where, "the keys are copied through a moving pointer (`*out++ = strdup(..->key)`): not followed")
     else:
         ctx.fail("A7", "econf_getKeys returns the keys in entry order", (cp[0] if cp else k).where, "copy statement %s" % ([render(c) for c in cp]), key="keys-copy")
 
